@@ -42,7 +42,10 @@ def gen_anchor_seqs(rng, n):
 
 
 # ------------------------------------------------------------------------------------------ structured footnote documents
-NAMES = ["a", "b", "c", "A", "B", "note", "1", "2", "a-2", "b-2", "x_y", "é", "É", 'a"b', "a%22b", "a%2", "fn", "ß", "SS"]
+NAMES = ["a", "b", "c", "A", "B", "note", "1", "2", "a-2", "b-2", "x_y", "é", "É", 'a"b', "a%22b", "a%2", "fn", "ß", "SS",
+         # names that label normalisation rewrites: interior Unicode white space collapses to one space (the id of the
+         # definition and the href of its references must be built from the same, normalised, name)
+         "a\u3000b", "a\u00a0\u00a0b", "x\u2003y"]
 REFONLY = ["nosuch", "zz", "a b", "9"]
 WORDS = ["alpha", "beta", "gamma", "delta", "x", "y", "z", "foo", "bar", "7", "w1"]
 
